@@ -41,6 +41,7 @@ var suites = map[string]func(o corrOpts) *res.Summary{
 	"iset":    func(o corrOpts) *res.Summary { return corrISet(o.tier, o.seed, o.replay) },
 	"excerpt": func(o corrOpts) *res.Summary { return corrExcerpt(o.tier, o.seed, o.replay) },
 	"cfg":     corrCfg,
+	"gram":    corrGram,
 }
 
 func runCorr(args []string) int {
